@@ -304,8 +304,14 @@ Definition fmt_dec (m : Z) (e : N) : bytes :=
 Definition follow_hint (d : db) (k : bytes) (hint : reply) : reply * db :=
   match hint with
   | RBulk s => (RBulk s, db_set d k (VStr s))
-  | RErr e => (RErr e, d)
   | _ => (err_other, d)
+  end.
+
+Fixpoint starts_with (p s : bytes) : bool :=
+  match p, s with
+  | [], _ => true
+  | a :: p', b :: s' => beqb a b && starts_with p' s'
+  | _ :: _, [] => false
   end.
 
 Definition exec_incrbyfloat (d : db) (args : list bytes) (hint : reply) : reply * db :=
@@ -316,7 +322,8 @@ Definition exec_incrbyfloat (d : db) (args : list bytes) (hint : reply) : reply 
     | FOut =>
       match db_get d k, hint with
       | Some (VStr _), _ | None, _ => follow_hint d k hint
-      | Some _, RErr e => (RErr e, d)           (* WRONGTYPE, or the increment did not parse *)
+      | Some _, RErr e =>                       (* WRONGTYPE, or the increment did not parse *)
+        ((if starts_with (B "WRONGTYPE") e then err_wrongtype else err_other), d)
       | Some _, _ => (err_wrongtype, d)
       end
     | FIn mi ei =>
